@@ -415,6 +415,10 @@ class SpawnBase(object):
         if (isinstance(pattern_list, self.allowed_string_types) or
                 pattern_list in (TIMEOUT, EOF)):
             pattern_list = [pattern_list]
+        elif isinstance(pattern_list, (bytes, text_type)):
+            # a string of the wrong type is not a list of patterns (an empty
+            # one would otherwise be iterated into "no patterns at all")
+            self._pattern_type_err(pattern_list)
 
         def prepare_pattern(pattern):
             if pattern in (TIMEOUT, EOF):
